@@ -328,6 +328,16 @@ def _clock_verdict(st, want):
     nones = [f for f in st.facts if f[0] == 'isnone' and f[2]]
     if not cmps:
         if nones:
+            aggs = [f[1] for f in nones if f[1][0] == 'agg']
+            if want == 'keep' and any(len(a) > 4 and a[4] == 'all'
+                                      for a in aggs):
+                return False, (
+                    'the aggregate of the dependencies\' end clocks is None '
+                    'as soon as ONE dependency has no end clock (a SKIPPED '
+                    'dependency never has one): the clocks of the other '
+                    'dependencies are then not compared, and a DONE '
+                    'dependency that finished after the task started keeps '
+                    'the task DONE')
             return True, 'a clock is absent on this row'
         if want == 'keep':
             return None, 'no clock comparison on this row'
